@@ -150,15 +150,19 @@ func GenErrSpec(t *rapid.T, okBias int) ErrSpec {
 		if kind == "wrapped" && e.Code == 0 {
 			e.Code = 13
 		}
-		switch rapid.IntRange(0, 3).Draw(t, "msgclass") {
+		switch rapid.IntRange(0, 4).Draw(t, "msgclass") {
 		case 0:
 			e.Msg = ""
 		case 1:
 			e.Msg = rapid.StringMatching(`[ -~]{1,20}`).Draw(t, "msg")
 		case 2:
 			e.Msg = "ünïcödé ✓ 世界 " + rapid.StringMatching(`[a-z]{0,5}`).Draw(t, "msg")
+		case 3:
+			e.Msg, e.Rep = rapid.StringMatching(`[a-z]{4}`).Draw(t, "msg"), 1024
 		default:
-			e.Msg = strings.Repeat(rapid.StringMatching(`[a-z]{4}`).Draw(t, "msg"), 1024)
+			// long messages, around and beyond 16 KiB and 64 KiB, ASCII or multi-byte
+			e.Msg = rapid.SampledFrom([]string{"abcd", "wxyz", "世é✓a"}).Draw(t, "msg")
+			e.Rep = rapid.SampledFrom([]int{4095, 4096, 4097, 16384, 70000}).Draw(t, "rep")
 		}
 		nd := rapid.IntRange(0, 3).Draw(t, "ndetails")
 		for i := 0; i < nd; i++ {
